@@ -2477,6 +2477,13 @@ impl Compiler {
             .builder
             .add_constant(super::bytecode::Constant::Chunk(Rc::new(chunk)))?;
 
+        // A named function expression sees its own name: the closure is created in a
+        // scope of its own that binds the name to the function
+        let own_name = func.id.as_ref().map(|id| id.name.cheap_clone());
+        if own_name.is_some() {
+            self.builder.emit(Op::PushScope);
+        }
+
         // Emit the appropriate closure creation opcode
         if func.generator && func.async_ {
             self.builder
@@ -2487,6 +2494,15 @@ impl Compiler {
             self.builder.emit(Op::CreateAsync { dst, chunk_idx });
         } else {
             self.builder.emit(Op::CreateClosure { dst, chunk_idx });
+        }
+
+        if let Some(own_name) = own_name {
+            let name_idx = self.builder.add_string(own_name)?;
+            self.builder.emit(Op::DeclareVarHoisted {
+                name: name_idx,
+                init: dst,
+            });
+            self.builder.emit(Op::PopScope);
         }
 
         Ok(())
@@ -2646,7 +2662,7 @@ impl Compiler {
         let mut chunk = func_compiler.builder.finish();
         chunk.function_info = Some(FunctionInfo {
             name: None,
-            param_count: params.len(),
+            param_count: super::expected_argument_count(params),
             is_generator: false,
             is_async,
             is_arrow: true,
